@@ -151,7 +151,10 @@ def handleEcdsaMsg (C : Curves.Params) (hash pkS msgS digestS mS rS sS noncesS p
     if !pkShares.isEmpty && decide (gsum pkShares ≠ pk) then
       .bad "ecdsa-pkshares-sum" "broadcast additive public key shares do not sum to pk" else
     if dig.data != digLine.data then .diff ("digest=" ++ bytesToHex dig) else
-    if mF.val != mLine then .diff ("m=" ++ mF.toHex) else .ok
+    if mF.val != mLine then .diff ("m=" ++ mF.toHex) else
+    -- both aggregation paths (dkls23.Aggregate, lindell17 Round5) return the low-s form; the property does
+    -- not demand it (`ecdsa_normalise_valid`: both forms verify), so a high s is a broken tie, not a violation
+    if 2 * s > q then .diff ("s=" ++ (-sF).toHex ++ " (low-s form)") else .ok
   | _, _, _, _, _, _, _, _ => .unsupported "parse"
 
 def handleSchnorrMsg (C : Curves.Params) (variant pkS msgS eS RS sS noncesS pRsS pSsS : String) : Verdict :=
